@@ -244,6 +244,15 @@ func worldC13(w *World) {
 					ok = true
 				}
 			}
+			// the Host of the handshake is the configured backend's, or (with host
+			// rewriting) the one the client used for the shim request - never an
+			// authority taken from the supplied URL
+			if s.Host != "example.test" && s.Host != "agenthost:8080" && s.Host != "localhost:8080" {
+				w.Violation("target", "the websocket handshake at the backend carries a Host taken from the supplied URL | Host %q (rewrite-websocket-host=%v; bodies %.200q)", s.Host, rewriteHost, bodies)
+			}
+			if rewriteHost {
+				w.Probe("handshake_with_rewritten_host")
+			}
 			if !ok {
 				w.Violation("target", "the websocket handshake at the backend has a path/query that no supplied URL contains | %q (bodies %.200q)", s.Path, bodies)
 			}
